@@ -3,7 +3,7 @@
 undo the change, and report whether the check raised a VIOLATION.  Refuses to run if /repo is dirty."""
 import json, os, subprocess, sys, time
 
-REPO = '/repo'
+REPO = os.environ.get('VERIF_REPO', '/repo')
 VERIF = os.path.dirname(os.path.dirname(os.path.abspath(__file__)))
 
 
